@@ -316,6 +316,11 @@ func (g *seqGen) lifeOp() {
 	case x < 27:
 		g.emit("inject")
 		g.r.Count("op:inject-again")
+	case x < 40:
+		g.emit(fmt.Sprintf("ppushn %d %d %s %d %s %s", g.provs[rng.Intn(len(g.provs))], 2+rng.Intn(3), g.key(), rng.Intn(7), pick(rng, genStrs), pick(rng, genFlags)))
+		g.afterWrite()
+		g.writes++
+		g.r.Count("op:ppushn")
 	default:
 		g.emit(fmt.Sprintf("ppush %d %s %d %s %s", g.provs[rng.Intn(len(g.provs))], g.key(), rng.Intn(10), pick(rng, genStrs), pick(rng, genFlags)))
 		g.afterWrite()
@@ -714,7 +719,7 @@ func genMalformed(r *hxlib.Run) hxlib.Case {
 	bad := []string{"frob", "put", "put LI", "put LI a/x 1 foo", "put XX a/x 1 foo -", "put LI a/x one foo -", "put LI a/x 1 foo zz",
 		"sub 0 LI 99", "sub x LI 0", "cancel 99", "cancel", "unhook 7", "hook 0 0 p p", "hook 0 0 s1 p p", "hook 0 0 q p p", "q 0 - T",
 		"q 5 - gt", "q 6 - & gt 1", "q 7 A T", "q 8 - T T", "get LI", "get LI A", "exists LI", "exists LI+w a/x", "relexp LI a/x 5", "relexp LI a/x", "del QQ a/x", "exp LI a/x z", "ins LI a/x x", "db hashmap 0",
-		"db bbolt 1", "db foo 0", "raw", "raw A", "flush LI", "drain now", "sizes 1", "push a/x 1 foo", "put LI+x a/x 1 foo -", "get LI+w a/x", "putmany LI+w a/x 1 foo -", "putmany LI a/x 1 foo", "putmany ZZ a/x 1 foo -",
+		"db bbolt 1", "db foo 0", "raw", "raw A", "flush LI", "drain now", "sizes 1", "push a/x 1 foo", "put LI+x a/x 1 foo -", "get LI+w a/x", "putmany LI+w a/x 1 foo -", "putmany LI a/x 1 foo", "putmany ZZ a/x 1 foo -", "inject", "prov 0 a/", "ppush 0 a/x 1 foo -", "ppushn 0 2 a/x 1 foo -", "rehook 5 0 0", "rehook 0 0", "unhook 5", "db regraw 1",
 		"sub 3 LI+w 0", "put L+w a/x 1 foo -"}
 	var l []string
 	for i, n := 0, rng.Intn(3); i < n; i++ {
